@@ -240,9 +240,22 @@ func (t *WebsocketTransport) Read(p []byte) (int, error) {
 		t.pending = t.pending[n:]
 		return n, nil
 	}
+	// What the reader has queued was received before whatever happened to the connection since: it is handed out
+	// first. (A select picks among its ready cases at random: with the context cancelled - Close, called by the
+	// keepalive when its ping fails on a connection that is going away - a single select dropped the queue.)
+	select {
+	case data := <-queue:
+		return deliver(data)
+	default:
+	}
 	select {
 	case <-ctx.Done():
-		return 0, ctx.Err()
+		select {
+		case data := <-queue:
+			return deliver(data)
+		default:
+			return 0, ctx.Err()
+		}
 	case data := <-queue:
 		return deliver(data)
 	case <-done:
